@@ -184,6 +184,22 @@ theorem lagrange_err_real {D W M c s η : ℝ} (hM : 0 ≤ M) (hη : 0 ≤ η) (
   have := abs_add_le ((D - M * c) * (D + M * c)) ((W - M * s) * (W + M * s))
   linarith
 
+/-- (B) **anticommutation, magnitude part, in rounded arithmetic**: `a ∧ b` and `b ∧ a` have the same magnitude within twice the
+    `wedge_mag_float` bound (`|sin(T b − T a)| = |sin(T a − T b)|`; the two computed sines come from different float arguments) -/
+theorem wedge_mag_symm_float {a b : Geonum F} (ha : a.angle.Inv) (hb : b.angle.Inv) (hma : a.MagDom) (hmb : b.MagDom) :
+    |val (a.wedge b).mag - val (b.wedge a).mag| ≤ 2 * (val a.mag * val b.mag * (val (e10 : F) + 1 / 10 ^ 14) + 1 / 10 ^ 29) := by
+  have h1 := wedge_mag_float ha hb hma hmb
+  have h2 := wedge_mag_float hb ha hmb hma
+  have e : Real.sin (Angle.Tpi a.angle - Angle.Tpi b.angle) = -Real.sin (Angle.Tpi b.angle - Angle.Tpi a.angle) := by
+    rw [← Real.sin_neg]; ring_nf
+  rw [e, abs_neg, mul_comm (val b.mag) (val a.mag)] at h2
+  have h1' : abs (val (a.wedge b).mag - val a.mag * val b.mag * abs (Real.sin (Angle.Tpi b.angle - Angle.Tpi a.angle)))
+      ≤ val a.mag * val b.mag * (val (e10 : F) + 1 / 10 ^ 14) + 1 / 10 ^ 29 := h1
+  have h2' : abs (val (b.wedge a).mag - val a.mag * val b.mag * abs (Real.sin (Angle.Tpi b.angle - Angle.Tpi a.angle)))
+      ≤ val a.mag * val b.mag * (val (e10 : F) + 1 / 10 ^ 14) + 1 / 10 ^ 29 := h2
+  rw [abs_le] at h1' h2' ⊢
+  constructor <;> linarith [h1'.1, h1'.2, h2'.1, h2'.2]
+
 /-- (B) **the Lagrange identity in rounded arithmetic**: with `D` the computed dot value and `W` the computed wedge magnitude,
     `D² + W² = (|a||b|)²` to within `2η(2|a||b| + η)`, `η = |a||b|·(1e-10 + 1e-14) + 1e-29` — i.e. about `4e-10` relative -/
 theorem lagrange_float {a b : Geonum F} (ha : a.angle.Inv) (hb : b.angle.Inv) (hma : a.MagDom) (hmb : b.MagDom) :
